@@ -865,8 +865,9 @@ def ex_layout(p, seed):
     if bool(r.on_para_eq_constraint) != bool(t.on_para_eq_constraint):
         fail("generate_from_var:flag-attribute:povm:composite:%s" % sig, where)
     if list(r.nums_local_outcomes) != nl:
-        fail("generate_from_var:povm:nums_local_outcomes-lost:%s" % sig,
-             "%s: nums_local_outcomes %r became %r after to_var -> generate_from_var" % (where, nl, list(r.nums_local_outcomes)))
+        # Observation, not a violation of C03: the regenerated POVM denotes the same operators (checked above) but reports
+        # the flat outcome layout [m]; the multi-index layout is only ever set by tensor_product (C07 judges it there).
+        out.count("note_nums_local_outcomes_not_kept_by_generate_from_var")
     else:
         for mi in itertools.product(*[range(x) for x in nl]):
             ok1, e1 = A.call(t.vec, tuple(mi))
